@@ -13837,12 +13837,14 @@ This indicates a bug inside LDK. Please report this error at https://github.com/
 						);
 						let responses = try_channel_entry!(self, peer_state, res, chan_entry);
 						let mut channel_update = None;
-						if let Some(msg) = responses.shutdown_msg {
-							peer_state.pending_msg_events.push(MessageSendEvent::SendShutdown {
-								node_id: counterparty_node_id.clone(),
-								msg,
-							});
-						} else if chan.context.is_usable() {
+						// Note that any `shutdown` we need to retransmit is queued only after the
+						// commitment update below: an `update_add_htlc` we sent before our original
+						// `shutdown` but which our peer never received must reach them again ahead
+						// of the `shutdown`, as otherwise they'd (rightfully) consider an
+						// `update_add_htlc` following a `shutdown` a protocol violation and
+						// force-close.
+						let shutdown_msg = responses.shutdown_msg;
+						if shutdown_msg.is_none() && chan.context.is_usable() {
 							// If the channel is in a usable state (ie the channel is not being shut
 							// down), send a unicast channel_update to our counterparty to make sure
 							// they have the latest channel parameters.
@@ -13875,6 +13877,12 @@ This indicates a bug inside LDK. Please report this error at https://github.com/
 						);
 						debug_assert!(htlc_forwards.is_empty());
 						debug_assert!(decode_update_add_htlcs.is_none());
+						if let Some(msg) = shutdown_msg {
+							peer_state.pending_msg_events.push(MessageSendEvent::SendShutdown {
+								node_id: counterparty_node_id.clone(),
+								msg,
+							});
+						}
 						if let Some(upd) = channel_update {
 							peer_state.pending_msg_events.push(upd);
 						}
